@@ -118,3 +118,36 @@ func HarnessC18QPBody() {
 		svReach("wrapped")
 	}
 }
+
+// QP body, line starts: the first `head` bytes of a line are symbolic printable
+// characters (any text a line may begin with), followed by a filler that brings
+// the line to every length around the 76-column limit, and a second line that
+// begins with the same symbolic bytes (a continuation after a soft break may
+// start with them as well).
+func HarnessC18QPLineStart() {
+	head := svParam("head", 5)
+	fill := svParam("lo", 66) + svPick("fill", svParam("fills", 8))
+	p := svBytes("p", head)
+	for _, b := range p {
+		svAssume(b >= 0x20)
+		svAssume(b <= 0x7e)
+		svAssume(b != '=')
+	}
+	var data []byte
+	data = append(data, p...)
+	for i := 0; i < fill; i++ {
+		data = append(data, 'a')
+	}
+	data = append(data, "\r\n"...)
+	data = append(data, p...)
+	data = append(data, " end\r\n"...)
+	w := &hxRecW{}
+	mw := &msgWriter{writer: w}
+	mw.writeBody(hxChunked(data, len(data), len(data)), EncodingQP)
+	svAssert(mw.err == nil, "error")
+	svAssert(int(mw.bytesWritten) == len(w.buf), "count")
+	lines := hxCheckBodyLines(w.buf, false)
+	if lines > 2 {
+		svReach("wrapped")
+	}
+}
